@@ -211,6 +211,22 @@ def random_names(rng, n, avoid=(), exotic=False):
     return names
 
 
+def hint_names(rng, n, hint='q'):
+    """n state names of the form <hint><number> as the constructions' own fresh-name helpers produce them: consecutive
+    runs that span digit lengths (q8 q9 q10 q11: the lexicographic maximum is not the numeric one), numberings with
+    gaps, the bare hint"""
+    mode = rng.randrange(3)
+    if mode == 0:
+        lo = rng.choice([0, 1, 7, 8, 9, 10, 97, 98, 99])
+        names = ['%s%d' % (hint, i) for i in range(lo, lo + n)]
+    elif mode == 1:
+        names = ['%s%d' % (hint, i) for i in rng.sample(range(0, 13), n)] if n <= 13 else ['%s%d' % (hint, i) for i in range(n)]
+    else:
+        names = [hint] + ['%s%d' % (hint, i) for i in rng.sample([1, 2, 3, 9, 10, 11, 100], n - 1)] if n - 1 <= 7 else ['%s%d' % (hint, i) for i in range(n)]
+    rng.shuffle(names)
+    return names[:n]
+
+
 def rename(RN, mapping):
     f = lambda q: mapping[q]
     return fa.make([f(q) for q in RN[0]], RN[1], [(f(p), a, f(q)) for (p, a, q) in RN[2]], f(RN[3]), [f(q) for q in RN[4]])
